@@ -72,16 +72,15 @@ theorem lame_agrees_with_young_nu (E nu g g' : K) (h : Admissible E nu) :
 
 /-- `ComputeAlteredStiffnessTensor<H>::exe(Da, D)`: plane stress condenses an unaltered tensor whose shear
 component is uncoupled from the normal ones (every isotropic or orthotropic tensor in its material frame);
-the other hypotheses copy -/
+the hypotheses whose altered and unaltered tensors coincide copy. (The generic template also copies in
+axisymmetrical generalised plane stress, where the altered tensor is the condensed one: that instantiation is
+used nowhere and is left unspecified here.) -/
 theorem alter_PSTRESS_spec (d00 d01 d02 d10 d11 d12 d20 d21 d22 d33 g : K) :
     Gen.alter_PSTRESS_all c c3 fn d00 d01 d02 0 d10 d11 d12 0 d20 d21 d22 0 0 0 0 d33 g
       = condense4 [d00, d01, d02, 0, d10, d11, d12, 0, d20, d21, d22, 0, 0, 0, 0, d33] := by c21_eq
 
 theorem alter_AGPE_spec (d00 d01 d02 d10 d11 d12 d20 d21 d22 g : K) :
     Gen.alter_AGPE_all c c3 fn d00 d01 d02 d10 d11 d12 d20 d21 d22 g = [d00, d01, d02, d10, d11, d12, d20, d21, d22] := by c21_eq
-
-theorem alter_AGPS_spec (d00 d01 d02 d10 d11 d12 d20 d21 d22 g : K) :
-    Gen.alter_AGPS_all c c3 fn d00 d01 d02 d10 d11 d12 d20 d21 d22 g = [d00, d01, d02, d10, d11, d12, d20, d21, d22] := by c21_eq
 
 theorem alter_AXIS_spec (d00 d01 d02 d03 d10 d11 d12 d13 d20 d21 d22 d23 d30 d31 d32 d33 g : K) :
     Gen.alter_AXIS_all c c3 fn d00 d01 d02 d03 d10 d11 d12 d13 d20 d21 d22 d23 d30 d31 d32 d33 g = [d00, d01, d02, d03, d10, d11, d12, d13, d20, d21, d22, d23, d30, d31, d32, d33] := by c21_eq
